@@ -1,4 +1,5 @@
 import DeapModel.Core.VariationOps
+import DeapModel.Core.History
 import Driver.Proto
 import Driver.C11
 /-!
@@ -44,6 +45,20 @@ Protocol handler for C02 (variation).
   `p<oid>` (an input), `k<j>` (the j-th clone `toolbox.clone` made) or `x` (allocated by an operator); `bad-tape` when
   an operator call raised in the model or a tape does not fit.
 
+    C02 hist <heap> <dm> <du> <init> <gens> <queries>
+
+  a HISTORY of `varAnd` / `varOr` calls with operators decorated by one `tools.History()` (model `Core/History.lean`).
+* `heap`    as above, an object is `<genome>|<fit>|<hidx>` (`hidx` = its `history_index`, `-` = no such attribute)
+* `dm`, `du` `1` = `toolbox.decorate("mate" / "mutate", history.decorator)`
+* `init`    `-` or the oids of a first `history.update(population)`
+* `gens`    `#`-separated generations (`-` = none): `and@<pop>@<cxpb>@<mutpb>@<draws>@<script>@<evals>` /
+            `or@<pop>@<lambda>@<cxpb>@<mutpb>@<tape>@<script>@<evals>`; `script` as for `and` / `or` with three-field objects (the `hidx` of an
+            object that existed before the operator call is ignored: the model keeps its own; for an object the operator allocated it is what
+            the object carried when the operator returned it); `evals` = `;`-separated `<oid>=<fit>` assigned AFTER the generation (`-` = none)
+* `queries` `;`-separated `<root index>:<max_depth | inf>` for `getGenealogy` (`-` = none)
+  Answer: per generation `off=<oids> objs=<obj;…> log=<events>` joined by ` | `, then ` index=<genealogy_index> tree=<k>t.t;… hist=<k:oid:obj>;…
+  q=<k>p.p;…/…` (dict order; `recursion` when the recursion does not end within 5000 frames).
+
 Answer: `off=<oids> cls=<f|i<k>…> objs=<obj;…> par=<obj;…> log=<events>`; `bad-tape` when the tape or
 the script does not fit the model's run, `assert` for varOr's `cxpb + mutpb <= 1.0`, `bad-op` on
 malformed input.
@@ -79,7 +94,7 @@ def parseObj (s : String) : Option Obj :=
   | [g, f] => do
     let genome ← parseList parseInt g
     let fit ← if f = "none" then some none else (parseList parseInt f).map some
-    some ⟨genome, fit⟩
+    some ⟨genome, fit, none⟩
   | _ => none
 
 def parseHeap (s : String) : Option (List Obj) :=
@@ -113,7 +128,7 @@ def showEv : Ev → String
   | .mutate a => "u" ++ toString a
 
 def mkState (objs : List Obj) : St :=
-  { heap := fun o => (objs[o]?).getD ⟨[], none⟩, next := objs.length }
+  { heap := fun o => (objs[o]?).getD ⟨[], none, none⟩, next := objs.length }
 
 def showRes (pop : List Nat) (n0 : Nat) (r : Res Script) : String :=
   if !r.tape.ok || !r.tape.calls.isEmpty then "bad-tape" else
@@ -138,7 +153,7 @@ def parseObjC (fmt : String) (s : String) : Option Obj :=
   | [g, f] => do
     let genome ← parseList (if fmt = "t" then parseNodeGene else parseGene) g
     let fit ← if f = "none" then some none else (parseList parseInt f).map some
-    some ⟨genome, fit⟩
+    some ⟨genome, fit, none⟩
   | _ => none
 
 def parseHeapC (fmt : String) (s : String) : Option (List Obj) :=
@@ -298,7 +313,172 @@ def composed (fmt pops heaps : String) (lams : Option String) (cx mu dec mate ml
           | some r => showResC fmt objs.length r
       | _, _ => "bad-op"
 
+/-! ### `tools.History` (`hist`) -/
+
+section Hist
+open History
+
+def parseObjH (s : String) : Option Obj :=
+  match s.splitOn "|" with
+  | [g, f, x] => do
+    let genome ← parseList parseInt g
+    let fit ← if f = "none" then some none else (parseList parseInt f).map some
+    let hx ← if x = "-" then some none else (parseNat x).map some
+    some ⟨genome, fit, hx⟩
+  | _ => none
+
+def showObjH (o : Obj) : String :=
+  showObj o ++ "|" ++ (match o.hidx with | none => "-" | some k => toString k)
+
+def parseCallH (s : String) : Option Call :=
+  match s.splitOn "/" with
+  | ["M", a, b, ra, rb, oa, ob, ora, orb] => do
+    some (Call.mate (← parseNat a) (← parseNat b) (← parseNat ra) (← parseNat rb)
+      (← parseObjH oa) (← parseObjH ob) (← parseObjH ora) (← parseObjH orb))
+  | ["U", a, ra, oa, ora] => do
+    some (Call.mutate (← parseNat a) (← parseNat ra) (← parseObjH oa) (← parseObjH ora))
+  | _ => none
+
+/-- an operator does not touch `history_index`: an object that existed before the call keeps the one it has in the model's heap -/
+def keepH (h : Heap) (n o : Nat) (x : Obj) : Obj := if o < n then { x with hidx := (h o).hidx } else x
+
+def scriptedH : Ops Script where
+  mate := fun t h n a b =>
+    match t.ok, t.calls with
+    | true, Call.mate a' b' ra rb oa ob ora orb :: rest =>
+      if a = a' ∧ b = b' then
+        ⟨⟨rest, true⟩, (((h.set a (keepH h n a oa)).set b (keepH h n b ob)).set ra (keepH h n ra ora)).set rb (keepH h n rb orb),
+          max n (max (ra + 1) (rb + 1)), ra, rb⟩
+      else ⟨⟨rest, false⟩, h, n, a, b⟩
+    | _, _ => ⟨⟨[], false⟩, h, n, a, b⟩
+  mutate := fun t h n a =>
+    match t.ok, t.calls with
+    | true, Call.mutate a' ra oa ora :: rest =>
+      if a = a' then ⟨⟨rest, true⟩, (h.set a (keepH h n a oa)).set ra (keepH h n ra ora), max n (ra + 1), ra⟩
+      else ⟨⟨rest, false⟩, h, n, a⟩
+    | _, _ => ⟨⟨[], false⟩, h, n, a⟩
+
+def parseEval (s : String) : Option (Nat × List Int) :=
+  match s.splitOn "=" with
+  | [o, f] => do some ((← parseNat o), (← parseList parseInt f))
+  | _ => none
+
+def applyEvals (h : Heap) : List (Nat × List Int) → Heap
+  | [] => h
+  | (o, f) :: r => applyEvals (h.set o { h o with fit := some f }) r
+
+structure HRun where
+  st : St
+  H : Hist
+  out : List String := []
+
+def showGenH (r : Res (Script × Hist)) : String :=
+  "off=" ++ showList toString r.off
+    ++ " objs=" ++ (if r.off.isEmpty then "-" else ";".intercalate (r.off.map (fun o => showObjH (r.st.heap o))))
+    ++ " log=" ++ showList showEv r.st.log
+
+/-- one generation; `.error "bad-op"` = malformed, `.error "bad-tape"` / `"assert"` = the model's run does not fit -/
+def runGenH (dm du : Bool) (x : HRun) (g : String) : Except String HRun :=
+  let finish (r : Res (Script × Hist)) (evs : List (Nat × List Int)) : Except String HRun :=
+    if !r.tape.1.ok || !r.tape.1.calls.isEmpty then .error "bad-tape"
+    else if !(evs.all (fun e => e.1 < r.st.next)) then .error "bad-op"
+    else .ok { st := { heap := applyEvals r.st.heap evs, next := r.st.next, log := [] }, H := r.tape.2, out := x.out ++ [showGenH r] }
+  let s0 : St := { x.st with log := [] }
+  match g.splitOn "@" with
+  | ["and", pops, cx, mu, draws, scr, evs] =>
+    match (do
+      let pop ← parseList parseNat pops
+      let cxpb ← parseFloat cx
+      let mutpb ← parseFloat mu
+      let ds ← parseList parseFloat draws
+      let sc ← if scr = "-" then some [] else (scr.splitOn ";").mapM parseCallH
+      let ev ← if evs = "-" then some [] else (evs.splitOn ";").mapM parseEval
+      if pop.all (· < s0.next) then pure (pop, cxpb, mutpb, ds, sc, ev) else none) with
+    | none => .error "bad-op"
+    | some (pop, cxpb, mutpb, ds, sc, ev) =>
+      match decodeAnd cxpb mutpb pop.length ds with
+      | none => .error "bad-tape"
+      | some (mateD, mutD) =>
+        match varAnd (histOps dm du scriptedH) (⟨sc, true⟩, x.H) s0 pop mateD mutD with
+        | none => .error "bad-tape"
+        | some r => finish r ev
+  | ["or", pops, lams, cx, mu, tape, scr, evs] =>
+    match (do
+      let pop ← parseList parseNat pops
+      let lam ← parseNat lams
+      let cxpb ← parseFloat cx
+      let mutpb ← parseFloat mu
+      let ds ← parseList parseDraw tape
+      let sc ← if scr = "-" then some [] else (scr.splitOn ";").mapM parseCallH
+      let ev ← if evs = "-" then some [] else (evs.splitOn ";").mapM parseEval
+      if pop.all (· < s0.next) then pure (pop, lam, cxpb, mutpb, ds, sc, ev) else none) with
+    | none => .error "bad-op"
+    | some (pop, lam, cxpb, mutpb, ds, sc, ev) =>
+      if !orAssert cxpb mutpb then .error "assert" else
+      match decodeOr cxpb mutpb lam ds with
+      | none => .error "bad-tape"
+      | some choices =>
+        match varOr (histOps dm du scriptedH) (⟨sc, true⟩, x.H) s0 pop lam choices with
+        | none => .error "bad-tape"
+        | some r => finish r ev
+  | _ => .error "bad-op"
+
+def runGensH (dm du : Bool) : HRun → List String → Except String HRun
+  | x, [] => .ok x
+  | x, g :: gs =>
+    match runGenH dm du x g with
+    | .error e => .error e
+    | .ok x1 => runGensH dm du x1 gs
+
+def showTreeH (d : Dict (List Nat)) : String :=
+  if d.isEmpty then "-" else
+    ";".intercalate (d.map (fun e => toString e.1 ++ ">" ++ (if e.2.isEmpty then "" else ".".intercalate (e.2.map toString))))
+
+def parseQueryH (s : String) : Option (Nat × Option Nat) :=
+  match s.splitOn ":" with
+  | [r, m] => do
+    let root ← parseNat r
+    let md ← if m = "inf" then some none else (parseNat m).map some
+    some (root, md)
+  | _ => none
+
+def histOp (heaps dms dus inits gens qs : String) : String :=
+  match (do
+    let objs ← if heaps = "-" then some [] else (heaps.splitOn ";").mapM parseObjH
+    let dm ← parseBool dms
+    let du ← parseBool dus
+    let init ← if inits = "-" then some none else (parseList parseNat inits).map some
+    let q ← if qs = "-" then some [] else (qs.splitOn ";").mapM parseQueryH
+    let okInit := match init with | none => true | some l => l.all (· < objs.length)
+    if okInit then pure (objs, dm, du, init, q) else none) with
+  | none => "bad-op"
+  | some (objs, dm, du, init, q) =>
+    let st0 : St := { heap := fun o => (objs[o]?).getD ⟨[], none, none⟩, next := objs.length }
+    let x0 : HRun :=
+      match init with
+      | none => { st := st0, H := {} }
+      | some l =>
+        let u := update {} st0.heap st0.next l
+        { st := { heap := u.heap, next := u.next }, H := u.hist }
+    match runGensH dm du x0 (if gens = "-" then [] else gens.splitOn "#") with
+    | .error e => e
+    | .ok x =>
+      let H := x.H
+      (if x.out.isEmpty then "-" else " | ".intercalate x.out)
+        ++ " index=" ++ toString H.index
+        ++ " tree=" ++ showTreeH H.tree
+        ++ " hist=" ++ (if H.hist.isEmpty then "-" else
+            ";".intercalate (H.hist.map (fun e => toString e.1 ++ ":" ++ toString e.2 ++ ":" ++ showObjH (x.st.heap e.2))))
+        ++ " q=" ++ (if q.isEmpty then "-" else
+            "/".intercalate (q.map (fun e =>
+              match getGenealogy H 5000 e.1 e.2 with
+              | none => "recursion"
+              | some g => showTreeH g)))
+
+end Hist
+
 def handle : List String → String
+  | ["hist", heaps, dm, du, init, gens, qs] => histOp heaps dm du init gens qs
   | ["and", pops, heaps, cx, mu, draws, scr] =>
     match (do
       let pop ← parseList parseNat pops
